@@ -30,6 +30,23 @@ CLAIMED = {
         'through TreeTransform.apply(batch_size, fn_batch_size).',
         'Bounded: <=4 input batches of size 0..5, B<=6, pad on/off. Rows are abstract ids; column c holds 10*row+c.',
         '5/C19'),
+    'C17': (
+        'TLA+ specs (Lru.tla cache machine, LazyEval.tla expression semantics) model-checked by TLC; histories replayed on LruCache, the LazyFn/LazyObject caches and lazy_fns.maybe_make',
+        'TLC checks boundedness, freshness, LRU eviction order and evaluate-once (action properties) of the cache machine, and that '
+        'materialising equals the eager meaning / cached nodes are stable / errors are never cached for every expression of the bounded '
+        'universe; all bounded histories plus simulated long ones are replayed on func_utils.LruCache, on LazyFn.result_ with the bound set to Cap '
+        '(identity of returned objects, evaluation counts, cache_info, order), on the LazyObject cache (missing-object error) and on '
+        'maybe_make with every second make through a pickle round trip.',
+        'Bounded: 3-4 keys, cap 2-3, <=7 ops (12 simulated); expressions of depth 2 over inc/add/tick/boom/box/attr/item.',
+        '5/C17'),
+    'C18': (
+        'TLA+ spec (TreeView.tla: Get/Set/Leaves/Apply transcription) with the laws checked by TLC; behaviours replayed on TreeMapView with mutation snapshots',
+        'TLC checks get-after-set, frame (both directions), set-current-is-identity, SELF/SKIP, leaves-read-back and apply-maps-leaves '
+        'for every tree/path/value of the bounded universe; every behaviour (tree, <=3 copy-and-sets) is replayed on TreeMapView '
+        'comparing result, items(), apply() and checking that no container reachable from the original or from earlier versions was written; '
+        'a second pass puts numpy arrays in the trees.',
+        'Bounded: trees of depth<=2 over keys {a,b}, sequences<=2, paths<=3, SELF/SKIP as single-element paths.',
+        '5/C18'),
 }
 
 PENDING = {}
